@@ -82,6 +82,7 @@ class LoopContext:
     continue_jumps: List[int] = field(default_factory=list)
     label: Optional[str] = None
     is_loop: bool = True  # False for switch statements (break only, no continue)
+    labels_loop: bool = False  # True for the context of a label whose statement is a loop
 
 
 @dataclass
@@ -700,12 +701,25 @@ class Compiler:
             # Find the right loop context (labeled or innermost loop, not switch)
             target_label = node.label.name if node.label else None
             ctx = None
-            for loop_ctx in reversed(self.loop_stack):
+            for i in range(len(self.loop_stack) - 1, -1, -1):
+                loop_ctx = self.loop_stack[i]
                 # Skip non-loop contexts (like switch) unless specifically labeled
                 if not loop_ctx.is_loop and target_label is None:
                     continue
-                if target_label is None or loop_ctx.label == target_label:
+                if target_label is None:
                     ctx = loop_ctx
+                    break
+                if loop_ctx.label == target_label:
+                    if not loop_ctx.labels_loop:
+                        raise SyntaxError(
+                            f"'continue {target_label}' does not target a loop"
+                        )
+                    # The label's own context only collects breaks; continue
+                    # belongs to the loop it labels, which sits right above it
+                    # (above any further labels of the same loop)
+                    while not self.loop_stack[i].is_loop:
+                        i += 1
+                    ctx = self.loop_stack[i]
                     break
 
             if ctx is None:
@@ -857,6 +871,19 @@ class Compiler:
             # Create a loop context for the label
             # is_loop=False so unlabeled break/continue skip this context
             loop_ctx = LoopContext(label=node.label.name, is_loop=False)
+            labelled = node.body
+            while isinstance(labelled, LabeledStatement):
+                labelled = labelled.body
+            loop_ctx.labels_loop = isinstance(
+                labelled,
+                (
+                    WhileStatement,
+                    DoWhileStatement,
+                    ForStatement,
+                    ForInStatement,
+                    ForOfStatement,
+                ),
+            )
             self.loop_stack.append(loop_ctx)
 
             # Compile the labeled body
